@@ -488,11 +488,11 @@ def mediaStmtEffect (O : Oracle) (ns : List (Cps × Cps)) (nested : List Tok →
     (acc : List Rule) (t : Tok) (stmt : List Tok) : List Rule :=
   match t.typ with
   | .charsetSym | .fontFaceSym | .importSym | .namespaceSym | .pageSym | .mediaSym | .atkeyword =>
-    -- atrule() :181-220 decides by the VALUE of the at-keyword, as written (no normalisation)
-    if mediaForbidden.contains t.val then acc                       -- not allowed here (:190-203)
-    else if t.val = atPage then                                     -- factories (:204-210)
+    -- atrule() :181-221 decides by the normalised VALUE of the at-keyword (fix 6caae8a)
+    if mediaForbidden.contains (normalize t.val) then acc          -- not allowed here (:191-204)
+    else if normalize t.val = atPage then                           -- factories (:205-211)
       (if O.atOk .pageSym true stmt then mediaInsert acc (.at_ .page stmt) else acc)
-    else if t.val = atMedia then
+    else if normalize t.val = atMedia then
       (match nested stmt with
        | some m => mediaInsert acc m
        | none => acc)
